@@ -23,16 +23,17 @@ type SVal struct {
 }
 
 type Gen struct {
-	w       *World
-	sc      *Schema
-	Dom     string // "canon" | "wide"
-	P       int    // maximal length of prefixed text
-	Slack   int    // extra length of fixed text in the wide domain
-	ListLen func(path string, f *FieldSpec) int
-	KeyOf   func(tab *TableSpec, path string) int // index of the table entry to use; -1: nil body
-	NilBody bool
-	pfx     string
-	PLen    int // >=0: prefixed text has exactly this many (symbolic) bytes
+	w        *World
+	sc       *Schema
+	Dom      string // "canon" | "wide"
+	P        int    // maximal length of prefixed text
+	Slack    int    // extra length of fixed text in the wide domain
+	ListLen  func(path string, f *FieldSpec) int
+	KeyOf    func(tab *TableSpec, path string) int // index of the table entry to use; -1: nil body
+	NilBody  bool
+	pfx      string
+	PLen     int  // >=0: prefixed text has exactly this many (symbolic) bytes
+	NilParts bool // nested pointer parts are left absent
 	// FixLen != nil: every text has the concrete length FixLen(maximal length) with symbolic content
 	// (fallback when the code loops on a text length: reduced bound, stated in the evidence)
 	FixLen func(maxLen int) int
@@ -174,6 +175,10 @@ func (g *Gen) Object(s *State, mod, tn, path string) *SVal {
 			}
 			ov.F[i] = lv
 		case "nested":
+			if g.NilParts && f.Ptr {
+				ov.F[i] = &SVal{K: 'n'} // an absent nested part (the encoder is expected to cope: C17)
+				break
+			}
 			ov.F[i] = g.Object(s, mod, f.Type, fpath)
 		case "body":
 			if bodyType == "" {
